@@ -132,7 +132,7 @@ def public_unit():
         Harness("roundtrip_own_nonce_1_1_1", ["C01"], complete=False, bound="|m|=1,|f|=1,|a|=1; every (r,s) in [1,n-1]^2", functions=fl, timeout=1800),
         Harness("verify_rejects_tamper_0_0_0", ["C02", "C12"], complete=False, bound="|m|=0,|f|=0,|a|=0; flip position and bit symbolic", functions=fl + kd, timeout=1800),
         Harness("verify_rejects_tamper_1_1_1", ["C02", "C12"], complete=False, bound="|m|=1,|f|=1,|a|=1; flip position and bit symbolic", functions=fl + kd, timeout=1800),
-        Harness("verify_rejects_other_key_0_0_0", ["C02", "C12"], complete=False, bound="|m|=0,|f|=0,|a|=0; one flipped bit of the 49 public key bytes (position and bit symbolic)", functions=fl + kd, timeout=2400,
+        Harness("verify_rejects_other_key_0_0_0", ["C02", "C12"], tier="thorough", complete=False, bound="|m|=0,|f|=0,|a|=0; one flipped bit of the 49 public key bytes (position and bit symbolic)", functions=fl + kd, timeout=2400,
                 desc="the tampered key goes through HasKey<Public>::decode: memo-table size symbolic afterwards (slow)"),
         Harness("verify_rejects_boundary_shift_1", ["C02"], complete=False, bound="|m|=1, footer+assertion 2 bytes", functions=fl),
         Harness("verify_rejects_message_shift_h", ["C02"], complete=False, bound="message+footer 3 bytes", functions=fl),
